@@ -404,6 +404,7 @@ def build(tier='quick', seed=0):
     full = []   # features: serde arbitrary new_unchecked regex
     nostd = []  # default-features = false, serde arbitrary
     int_types = INT_TYPES_ALL if thorough else INT_TYPES_QUICK
+    extra_types = [] if thorough else [t for t in INT_TYPES_ALL if t not in INT_TYPES_QUICK]
 
     LOWERS = ['greater', 'greater_or_equal']
     UPPERS = ['less', 'less_or_equal']
@@ -506,6 +507,29 @@ def build(tier='quick', seed=0):
         full.append(decl('int', t, validators=[V('less', '10', 10, 'lit')], new_unchecked=True, const_fn=True,
                          derives=['Debug'], tags=['unchecked']))
         full.append(decl('int', t, new_unchecked=True, derives=['Debug'], tags=['unchecked']))
+
+    # ---------------- quick tier: the remaining integer types with a reduced grid --------------------------
+    for t in extra_types:
+        U = t.upper()
+        for kind in LOWERS + UPPERS:
+            for (text, value, form) in [('10', 10, 'lit'), (f'K_{U} << 2', K << 2, 'expr'), (f'{t}::MAX' if kind in UPPERS else f'{t}::MIN', int_max(t) if kind in UPPERS else int_min(t), 'expr')]:
+                arb = not ((kind == 'greater' and value == int_max(t)) or (kind == 'less' and value == int_min(t)))
+                full.append(decl('int', t, validators=[V(kind, text, value, form)],
+                                 derives=['Debug', 'Clone', 'Copy', 'PartialEq', 'TryFrom', 'FromStr', 'Display', 'Into'] + (['Arbitrary'] if arb else []),
+                                 tags=['single', 'spelling']))
+        for lo, up in itertools.product(LOWERS, UPPERS):
+            vs = [V(lo, f'K_{U}', K, 'expr'), V(up, '100', 100, 'lit')]
+            full.append(decl('int', t, validators=vs, derives=full_derives('int', True), tags=['pair']))
+            full.append(decl('int', t, validators=list(reversed(vs)), derives=['Debug', 'TryFrom', 'Arbitrary', 'Deserialize'], tags=['pair']))
+        if int_signed(t):
+            full.append(decl('int', t, validators=[V('greater', f'-K_{U}', -K, 'expr'), V('less_or_equal', '-1', -1, 'lit')], derives=full_derives('int', True), tags=['pair']))
+        full.append(decl('int', t, sanitizers=[S('with', f'|x| x / 2', 'closure')], validators=[V('greater_or_equal', '1', 1, 'lit'), V('less', '40', 40, 'lit'),
+                         V('predicate', '|x| *x != 4', form='closure')], derives=full_derives('int', True, arbitrary_ok=False), tags=['sanitize']))
+        full.append(decl('int', t, derives=full_derives('int', False, with_default=True), default={'text': '42', 'value': 42}, tags=['bare']))
+        full.append(decl('int', t, custom={'with_text': f'check_{t}', 'form': 'path', 'callee': f'check_{t}', 'error': 'MyErr'},
+                         derives=full_derives('int', True, arbitrary_ok=False), tags=['custom']))
+        full.append(decl('int', t, validators=[V('less', '10', 10, 'lit')], new_unchecked=True, const_fn=True, derives=['Debug', 'Default'],
+                         default={'text': '3', 'value': 3}, tags=['unchecked', 'default']))
 
     # ---------------- thorough: random literal bounds (seeded) and spelling x spelling pairs ----------
     if thorough:
